@@ -92,6 +92,24 @@ def run_item(it):
                         if k2 == "ok" and not same(r2[0], r1[0]):
                             findings.append({"op": "id", "backend": backend, "rel": "compose", "kind": "relation-violated",
                                              "detail": "id(%r) after id(%r) differs from id(%r)" % ("".join(toks2), "".join(base["desc"]), "".join(rel["desc"]))})
+            # inverse law with several tensors (concatenate / split): id(outs -> ins) undoes id(ins -> outs)
+            if base["fam"] == "id" and op == "id" and (len(base["ins"]) > 1 or len(base["outs"]) > 1):
+                alltoks = [t for ts in base["intoks"] + base["outtoks"] for t in ts]
+                nin = sorted(t for ts in base["intoks"] for t in ts if t.isalpha())
+                nout = sorted(t for ts in base["outtoks"] for t in ts if t.isalpha())
+                norep = all(len({t for t in ts if t.isalpha()}) == len([t for t in ts if t.isalpha()]) for ts in base["intoks"] + base["outtoks"])
+                if "1" not in alltoks and set(nin) == set(nout) and norep:
+                    toks_inv = []
+                    for j, ts in enumerate(base["outtoks"]):
+                        toks_inv += ([",", " "] if j else []) + ts
+                    toks_inv += [" ", "->", " "]
+                    for j, ts in enumerate(base["intoks"]):
+                        toks_inv += ([",", " "] if j else []) + ts
+                    k3, r3 = outcome(lambda: call("id", toks_inv, list(r0), backend, base["L"], {}))
+                    calls += 1
+                    if k3 != "ok" or len(r3) != len(ins) or not all(same(a, b) for a, b in zip(r3, ins)):
+                        findings.append({"op": "id", "backend": backend, "rel": "invert", "kind": "relation-violated",
+                                         "detail": "id(%r) does not invert id(%r): %s" % ("".join(toks_inv), "".join(base["desc"]), r3 if k3 != "ok" else "values differ")})
             # inverse law: pure bijective rearrangement
             if base["fam"] == "id" and op == "id" and len(base["ins"]) == 1 and len(base["outs"]) == 1:
                 nin = [t for t in base["intoks"][0] if t.isalpha()]
@@ -130,6 +148,8 @@ def run(tier):
     specs = corpus.quick_specs() if tier == "quick" else corpus.thorough_specs()
     if tier == "quick":
         specs = [s for s in specs if s[0] not in ("update_at",)] + [("update_at", ["a"], corpus.LENS_QUICK, 2, 3)]
+        # equal lengths everywhere: the setting in which swapped blocks / axes keep every shape intact
+        specs.append(("idcat", ["a", "b"], [(2, 2, 2, 2, 2, 2)], 3, 3))
     rels = corpus.generate(rep, specs, mode="equiv", timeout=1500 if tier == "quick" else 3000)
     rep.exhaustive = True
     if tier == "quick":
